@@ -1,8 +1,8 @@
 #!/verif/.venv/bin/python
 # Replay of a solver counterexample against the unmodified code (no shims).
-# property=C09 kernel=atomic label=atomic:align#1
+# property=C09 kernel=l1 label=c09:raise_unchanged
 import sys
 sys.path[:0] = ['/repo' + "/pulser-core", '/repo' + "/pulser-simulation", "/verif"]
 from symx.replay import replay
-sys.exit(replay(check='checks.c09', kernel='atomic', shape={'device': 'virt_maxseq', 'prefix': 'p2', 'ops': ['delay_rest', 'align']},
-                assignment={'pd1/k': 2, 'pd2/k': 988, 'buf#1.start': 0, 'buf#1.end': 2, 'buf#2.start': 0, 'buf#2.end': 3, 'dl0': 3957, 'buf#7.start': 0, 'buf#7.end': 0, 'buf#8.start': 0, 'buf#8.end': 1}, label='atomic:align#1'))
+sys.exit(replay(check='checks.c09', kernel='l1', shape={'own': {'clock': 1, 'local': False, 'slots': ['pulseA'], 'mod': True, 'pj': 'derived', 'det_off': 0.0, 'eom': {'custom_buffer': False, 'blocks': [(0, None)]}}, 'op': ['modify_eom', 0.0], 'maxseq': True, 'nbarriers': 1},
+                assignment={'max_sequence_duration': 3, 'own.min_duration': 2, 'own.tr': 1, 'own.eom_tr': 1, 'own.s0.dur': 2, 'buf#1.start': 0, 'buf#1.end': 0, 'buf#2.start': 0, 'buf#2.end': 0}, label='c09:raise_unchanged'))
